@@ -2,6 +2,7 @@
   C06 — nesting: the `waiting_for`/`depth` state against the START/END stack of the input.
 -/
 import Genshi.Lemmas.SanFilter
+set_option linter.unusedSimpArgs false
 namespace Genshi.San
 
 /-- while an element named like `w` is being dropped: the open input elements above the output's
